@@ -18,7 +18,7 @@ CONSTANTS
  DevJoinOkEarly = FALSE
  DevAssignAllMembers = FALSE
  DevRestoreDropsAsg = FALSE
- DevRestoreGenZero = TRUE
+ DevRestoreGenZero = FALSE
  DevExpireIgnoresHb = FALSE
  DevNoLaggerDrop = FALSE
  DevNoExpire = FALSE
@@ -26,10 +26,10 @@ CONSTANTS
  DevSyncRefusesIdle = FALSE
  DevHbWriteUnlocked = FALSE
  DevCleanupWriteUnlocked = FALSE
- DevSyncLookupUnlocked = FALSE
+ DevSyncLookupUnlocked = TRUE
 INIT Init
 NEXT Next
-PROPERTIES C15_RestoreEqual C15_NotFenced C15_KeepWorking
+PROPERTIES C12_OnlySubscribed C12_ExactlyOne C12_ReplyFromMap C12_OneMapPerGen
 CONSTRAINT GenBound
 VIEW View
 CHECK_DEADLOCK FALSE
